@@ -526,7 +526,13 @@ func stressWorld(b run.Batch, r *ev.Result, rng *rand.Rand, round int, phases []
 			break
 		}
 		run.Op("stress world %d phase %s goroutines=%d now=%d", round, ph.label, len(ph.kinds), now)
-		off := w.S.VerifSnapshot(false).Offset
+		sn := snapBounded(w.S, false)
+		if sn == nil { // a snapshot that does not return: a server mutex is not being released
+			lockProbe(w.S, r, "stress phase "+ph.label+" (snapshot did not return within 20 s)", nil)
+			w.broken = true
+			return done, false
+		}
+		off := sn.Offset
 		// The rotation job looks at the clock every 100 ms; several short phases fit into that. Reports are
 		// planned up to now+200 and must stay below offset+4032 whenever they are processed, so the clock is
 		// not allowed to run more than two phases past the rotation trigger (3200) before the job has rotated.
